@@ -1,5 +1,6 @@
 import Gengo.Basic.Proto
 import Gengo.Model.Loader
+import Gengo.Model.Predicates
 import Gengo.Generated.Facts
 namespace Gengo.Driver.Universe
 open Gengo Gengo.Proto Gengo.Universe Gengo.Loader
@@ -97,7 +98,11 @@ def showObj (u : U) (i : Nat) : Str :=
       ['('] ++ showNamed u ob.params ++ [')', '('] ++ showNamed u ob.results ++ [')'] ++ (if ob.variadic then ['v'] else []) ++ ['r', '='] ++ refOf u ob.recv
     else ['-']) ++
   str "|tp=" ++ showNamed u (ob.tparams.mergeSort (fun a b => Str.le a.1 b.1)) ++
-  str "|c=" ++ (match ob.constVal with | none => ['-'] | some v => hex v)
+  str "|c=" ++ (match ob.constVal with | none => ['-'] | some v => hex v) ++
+  (if ob.kind = .unknown || ob.kind = .declarationOf then str "|f=-" else
+    let fuel := u.objs.length + 1
+    let b := fun (x : Bool) => if x then '1' else '0'
+    str "|f=" ++ [b (Predicates.isPrimitive u i), b (Predicates.isAssignable u fuel i), b (Predicates.isAnonymousStruct u fuel i)])
 
 def nameLe (a b : Name × Nat) : Bool :=
   Str.lt a.1.pkg b.1.pkg || (a.1.pkg = b.1.pkg && Str.le a.1.name b.1.name)
